@@ -28,10 +28,18 @@ def run_one(change, props, tier="quick", keep=False, base=None):
     wt = "/tmp/seedtest-%s-%d" % (name, os.getpid())
     tgt = wt + "-target"
     sh("git -C %s worktree remove --force %s" % (REPO, wt))
+    # prefer the current HEAD (the patch is then judged against today's code, with every later repair in);
+    # fall back to the commit the patch was written against when it no longer applies
+    if base and not change.startswith("revert:"):
+        path0 = change if os.path.isabs(change) else os.path.join(V, change)
+        if sh("git -C %s apply --check %s" % (REPO, path0)).returncode == 0:
+            base = None
     r = sh("git -C %s worktree add -q --detach %s %s" % (REPO, wt, base or "HEAD"))
     if r.returncode != 0:
         print("worktree failed:", r.stdout.decode()[-300:])
         return []
+    if base:
+        print("   (patch no longer applies to HEAD: judged against its base %s)" % base)
     out = []
     try:
         if change.startswith("revert:"):
